@@ -48,7 +48,8 @@ def plan(tier, seed):
         require=['scripts', 'steps', 'declarations', 'idempotent_checks',
                  'conflicts_refused', 'undeclare_calls',
                  'undeclare_refused', 'held_across_change',
-                 'quiescent_checks', 'declare_calls_with_repeated_names'],
+                 'quiescent_checks', 'declare_calls_with_repeated_names',
+                 'histories_with_nested_names'],
         assumptions=['add_var(name, level) is exercised with the '
                      "variable's own level, the next bottom level or a "
                      'conflicting one (explicit levels leaving a gap are '
@@ -129,7 +130,8 @@ class Script:
             self.declare(name[-1])
         elif name == 'add_var-fresh':
             self.nfresh += 1
-            self.declare(f'f{self.nfresh}')
+            self.declare(getattr(self, 'fresh_fmt', 'f{}').format(
+                self.nfresh))
         elif name == 'add_var-conflict':
             vs = sorted(r.vars, key=r.vars.get)
             # every existing name at every other level (also beyond
@@ -253,15 +255,24 @@ def exhaustive(ctx, spec):
 def random_(ctx, spec):
     rng = ctx.rng('random', spec['sub'])
     names = [f'x{i}' for i in range(spec['n'])]
+    nested = spec['sub'] % 2 == 1
+    if nested:
+        # names that contain one another (x, x1, x10, x11, x100, ...)
+        names = ['x', 'x1', 'y', 'y1', 'xy', 'x1y'][:min(spec['n'], 3)]
+        ctx.counters['histories_with_nested_names'] += 1
     kind = 'autoref' if spec['auto'] else 'bdd'
     reg = None
     if kind == 'autoref':
         reg = monitors.HandleRegistry()
         reg.install()
     w = World(ctx, rng, names, kind=kind, strict=False, registry=reg)
+    if nested:
+        w.fresh_names = (p + '0' * i for i in itertools.count(1)
+                         for p in ('x1', 'y1'))
     sc = Script(ctx, spec['auto'], reg)
     sc.w = w
     sc.nfresh = 100
+    sc.fresh_fmt = 'x1{}' if nested else 'f{}'
     sc.changed_while_held = False
 
     def s_conflict():
